@@ -57,7 +57,7 @@ class StoreRun:
         def keep(k, o):
             if self.select is not None and not self.select(o):
                 # not selected for replay: only its promise is needed (for the prefixes of selected paths)
-                o = dict(steps=o["steps"], out=o["out"], allowed=o["allowed"], abs=o["abs"], _unselected=True)
+                o = dict(steps=o["steps"], out=o["out"], allowed=o["allowed"], abs=o["abs"], pvok=o.get("pvok", True), _unselected=True)
             seen[0] += 1
             if len(scns) < cap:
                 scns.append(o)
@@ -75,7 +75,7 @@ class StoreRun:
         # promise after every emitted prefix
         mids = {}
         for sc in scns:
-            mids[(len(sc["steps"]), key_of(sc["steps"]))] = dict(out=sc["out"], allowed=sc["allowed"], abs=sc["abs"])
+            mids[(len(sc["steps"]), key_of(sc["steps"]))] = dict(out=sc["out"], allowed=sc["allowed"], abs=sc["abs"], pvok=sc.get("pvok", True))
         todo = [sc for sc in scns if not sc.get("_unselected")]
         total = len(todo)
         if seen[0] > len(scns) or int(consts.get("EmitMod", 1)) > 1:
@@ -162,11 +162,52 @@ def new_cov():
     return dict(states=0, transitions=0, traces_validated_against_impl=0, samples=[], exhaustive=True, configs=[])
 
 
+def model_predicts_damage(sc):
+    """A scenario whose path went through a known-defective situation (taint) is excused by the known finding only when the
+    specification's own page-level model predicts the damage on this very history: somewhere on the path (or at its end) the
+    model's pages no longer hold an allowed state (pvok FALSE: recovery `lost`/`dead`, or a later scan of the model's pages
+    differing from the promise).  Where the model recovers cleanly, the code must too.  A prefix whose verdict TLC did not
+    print (sampling) counts as damage: never an alarm on incomplete information."""
+    if sc.get("pvok") is False:
+        return True
+    steps = sc["steps"]
+    mid = sc.get("mid") or {}
+    seen_crash = False
+    for n in range(1, len(steps)):
+        if steps[n - 1].get("a") == "crash":
+            seen_crash = True
+        if not seen_crash:
+            continue
+        m = mid.get(str(n))
+        if m is None:
+            # nothing is printed while a recovery's flush is in flight (out = none): only completed steps count
+            if steps[n - 1].get("a") in ("recover", "insert", "update", "delete", "create", "flush") and not _inflight_after(steps, n):
+                return True
+            continue
+        if m.get("pvok") is False:
+            return True
+    return False
+
+
+def _inflight_after(steps, n):
+    """Is there no completed observable point after step n (1-based count of steps taken)?  A `recover` whose final flush is
+    crashed again, and steps between FlushBegin and FlushHdr, emit nothing."""
+    a = steps[n - 1].get("a")
+    nxt = steps[n].get("a") if n < len(steps) else None
+    return nxt == "crash" and a in ("recover", "flush")
+
+
 def default_violation(ctx, finding_of=None):
     """finding_of(req, r) -> list of known-finding ids this failing scenario matches."""
     def on_violation(run, req, r):
         # a known-finding signature counts when the specification's path has it or the recorded I/O of the real run has it
-        fids = list(req.get("taint") or []) + list(r.get("real_taint") or [])
+        if req.get("taint"):
+            # the specification's path is in a known-defective class: excused only where the model predicts the damage
+            fids = list(req["taint"]) if model_predicts_damage(req) else []
+        else:
+            # the specification's path is clean but the real run's recorded I/O has the signature (the real flush wrote
+            # other pages than the model's): the model says nothing about this history
+            fids = list(r.get("real_taint") or [])
         if finding_of:
             fids += finding_of(req, r)
         vlib.report_violation(ctx, dict(kind="store-replay", cfg=run.name, constants=run.stats.get("constants"), steps=req["steps"],
@@ -227,6 +268,7 @@ def random_runs(ctx, pool, cov, runs, judge_graphs=False):
         rr["out"] = os.path.join(tdir, "trace-%d.ndjson" % i)
         if judge_graphs or rr.get("graphevery"):
             rr["graphout"] = os.path.join(tdir, "graphs-%d.ndjson" % i)
+        rr["orderout"] = os.path.join(tdir, "order-%d.ndjson" % i)
         reqs.append(dict(mode="random", rand=rr, _i=i))
     results = {}
     old_to = pool.request_timeout
@@ -237,7 +279,7 @@ def random_runs(ctx, pool, cov, runs, judge_graphs=False):
         pool.request_timeout = old_to
     agg = cov.setdefault("random_runs", dict(runs=0, statements=0, events=0, recoveries=0, crash_in_log=0, crash_idle=0, flushes=0,
                                              max_rows_in_a_table=0, max_tree_levels=0, graphs_judged_by_tlc=0, cache_full_discarded=0,
-                                             traces_accepted_by_tlc=0, tlc_states=0))
+                                             traces_accepted_by_tlc=0, tlc_states=0, order_events_accepted_by_walorder=0))
 
     def validate(i):
         r = results[i]
@@ -263,6 +305,26 @@ def random_runs(ctx, pool, cov, runs, judge_graphs=False):
                     e["rows"] = e["rows"][:30] + ["...(%d)" % len(e["rows"])] + e["rows"][-30:]
             return ("viol", i, dict(detail=["event %d of the recorded run is not a step MkdbAbs allows: %s" % (reached, json.dumps(evs[-1])[:300])],
                                     events_before_and_at=evs, run=rq))
+        # the same run's order trace (locks, stamps, data-file and log writes) must be a behaviour of WalOrder.tla
+        nord = 0
+        if rq.get("orderout") and os.path.exists(rq["orderout"]):
+            otxt = open(rq["orderout"]).read()
+            nord = otxt.count("\n")
+            oouts = []
+            o = vlib.run_tlc(ctx, "WalOrderTrace", "WalOrderTrace.cfg", workers=1, timeout=1800, tag="o%d" % i,
+                             files={"order.ndjson": otxt}, on_scn=lambda k, x: oouts.append(x), xss="256m")
+            if o.status != "ok":
+                reached = oouts[-1]["reached"] if oouts else None
+                olines = otxt.splitlines()
+                if o.violated and o.violated != "Accepted":
+                    # an invariant of WalOrder failed in a state the trace reached
+                    return ("viol", i, dict(detail=["the recorded order of page stamps, log and data-file writes breaks %s (WalOrder.tla)" % o.violated],
+                                            tlc=o.out[-40:], run=rq))
+                if reached is None:
+                    return ("undecided", i, "WalOrderTrace: TLC failed\n" + "\n".join(o.out[-20:]))
+                evs = [json.loads(x) for x in olines[max(0, reached - 12):reached]]
+                return ("viol", i, dict(detail=["order event %d of the recorded run is not a step WalOrder allows: %s" % (reached, json.dumps(evs[-1]))],
+                                        events_before_and_at=evs, run=rq))
         bad = None
         ng = 0
         if rq.get("graphout") and os.path.exists(rq["graphout"]):
@@ -276,7 +338,7 @@ def random_runs(ctx, pool, cov, runs, judge_graphs=False):
                     return ("undecided", i, "TreeTrace: TLC failed\n" + "\n".join(g.out[-20:]))
                 bad = "TreeOK (BTree.tla) is false for a page graph recorded during the run"
         st = r.get("stats", {})
-        return ("ok" if not bad else "viol", i, dict(stats=st, states=t.distinct, graphs=ng, detail=[bad] if bad else None, run=rq))
+        return ("ok" if not bad else "viol", i, dict(stats=st, states=t.distinct, graphs=ng, order=nord, detail=[bad] if bad else None, run=rq))
 
     with ThreadPoolExecutor(max_workers=min(len(reqs), vlib.NCPU)) as ex:
         outs = list(ex.map(validate, range(len(reqs))))
@@ -301,6 +363,7 @@ def random_runs(ctx, pool, cov, runs, judge_graphs=False):
         agg["max_tree_levels"] = max(agg["max_tree_levels"], st.get("levels", 0))
         agg["graphs_judged_by_tlc"] += info.get("graphs", 0)
         agg["tlc_states"] += info.get("states", 0)
+        agg["order_events_accepted_by_walorder"] = agg.get("order_events_accepted_by_walorder", 0) + info.get("order", 0)
         if kind == "viol":
             vlib.report_violation(ctx, dict(kind="random-run-graph", detail=info["detail"], run=info["run"]), signature="random-graph")
         else:
